@@ -34,6 +34,8 @@ type Thread struct {
 	hasWindow bool
 	held      map[string]byte
 	cutAfterOp bool
+	lazyName  string
+	lazy      int // >0: walking a loop iteration beyond the unwinding bound (read-only operations only)
 	fromLib   bool
 }
 
@@ -246,13 +248,14 @@ func (w *W) op(t *Thread, key int, pg *Term, o opSpec) (Value, *Term) {
 	if !o.yield && o.enabled == nil && !o.sync {
 		// plain step: always enabled, never a scheduling point. It executes in the same burst as the
 		// scheduling point that heads its segment, so "done" is just the path guard of the previous walk.
+		if t.lazy > 0 && !readOnlyOp(o) {
+			// a plain write beyond the bound: treat like a refused step (the goroutine stands before it)
+			t.truncated = Or(t.truncated, And(pg, Not(st.done)))
+			w.noteLoopTrunc(t.lazyName, And(pg, Not(st.done)))
+			return st.res, False
+		}
 		at := And(pg, Not(st.done))
 		if at.IsFalse() || w.observe {
-			if t.cutAfterOp {
-				t.cutAfterOp = false
-				t.truncated = Or(t.truncated, pg)
-				return st.res, False
-			}
 			return st.res, pg
 		}
 		w.recordAccess(t, o)
@@ -268,23 +271,25 @@ func (w *W) op(t *Thread, key int, pg *Term, o opSpec) (Value, *Term) {
 			w.trace = append(w.trace, traceEv{thread: t.id, round: t.round, exec: exec, pos: w.pos(o.pos), kind: o.kind, key: key, sync: true, fn: w.curFnName(), nondet: o.nondet})
 		}
 		st.done = pg
-		if t.cutAfterOp {
-			t.cutAfterOp = false
-			t.truncated = Or(t.truncated, pg)
-			if debugYields {
-				fmt.Fprintln(os.Stderr, "cut after plain op", o.kind, w.pos(o.pos), "T", t.id, "frozen:", w.frozen != nil)
-			}
-			return st.res, False
-		}
 		return st.res, pg
+	}
+	if t.lazy > 0 && !readOnlyOp(o) {
+		// beyond the unwinding bound: the goroutine may stand (or block) before this operation, but having
+		// executed it puts the state outside the bound
+		at0 := And(pg, Not(st.done))
+		en0 := o.enabled
+		if en0 == nil {
+			en0 = True
+		}
+		w.noteLoopTrunc(t.lazyName, And(at0, en0))
+		if w.observe && !at0.IsFalse() {
+			t.canmove = Or(t.canmove, And(at0, en0))
+			w.standing = append(w.standing, traceEv{thread: t.id, exec: at0, pos: w.pos(o.pos), kind: o.kind + " [beyond unwinding bound]", fn: w.curFnName(), blocked: Not(en0)})
+		}
+		return st.res, False
 	}
 	at := And(pg, Not(st.done))
 	if at.IsFalse() {
-		if t.cutAfterOp {
-			t.cutAfterOp = false
-			t.truncated = Or(t.truncated, st.done)
-			return st.res, False
-		}
 		return st.res, st.done
 	}
 	en := o.enabled
@@ -297,11 +302,6 @@ func (w *W) op(t *Thread, key int, pg *Term, o opSpec) (Value, *Term) {
 			w.noteRaceCand(t, o, at)
 		}
 		w.standing = append(w.standing, traceEv{thread: t.id, exec: at, pos: w.pos(o.pos), kind: o.kind, fn: w.curFnName(), blocked: Not(en)})
-		if t.cutAfterOp {
-			t.cutAfterOp = false
-			t.truncated = Or(t.truncated, st.done)
-			return st.res, False
-		}
 		return st.res, st.done
 	}
 	w.recordAccess(t, o)
@@ -349,16 +349,6 @@ func (w *W) op(t *Thread, key int, pg *Term, o opSpec) (Value, *Term) {
 	}
 	t.running = And(t.running, Or(Not(at), exec))
 	st.done = Or(st.done, exec)
-	if t.cutAfterOp {
-		// first operation of a loop iteration beyond the unwinding bound: the goroutine may stand (or block)
-		// before it, but having executed it puts the state outside the bound
-		t.cutAfterOp = false
-		t.truncated = Or(t.truncated, st.done)
-		if debugYields {
-			fmt.Fprintln(os.Stderr, "cut after op", o.kind, w.pos(o.pos), "T", t.id, "frozen:", w.frozen != nil)
-		}
-		return st.res, False
-	}
 	return st.res, st.done
 }
 
@@ -639,4 +629,29 @@ func (w *W) prio(t *Thread) int {
 		}
 	}
 	return len(w.orderFirst) + 1
+}
+
+// readOnlyOp: operations that only observe shared state (a loop condition evaluated once more beyond the
+// unwinding bound may perform them; the first operation that is not read-only puts the state outside the bound).
+func readOnlyOp(o opSpec) bool {
+	if o.write && o.kind != "RLock" && o.kind != "RUnlock" {
+		return false
+	}
+	switch {
+	case strings.HasSuffix(o.kind, ".Load"), o.kind == "load", o.kind == "RLock", o.kind == "RUnlock", o.kind == "chanlen", o.kind == "ctx.Err",
+		o.kind == "nondet", o.kind == "reach", o.kind == "assume", strings.HasPrefix(o.kind, "assert"), o.kind == "time.Now":
+		return true
+	}
+	return false
+}
+
+func (w *W) noteLoopTrunc(name string, g *Term) {
+	if name == "" || g.IsFalse() {
+		return
+	}
+	if old, ok := w.loopsTruncated[name]; ok {
+		w.loopsTruncated[name] = Or(old, g)
+	} else {
+		w.loopsTruncated[name] = g
+	}
 }
